@@ -249,9 +249,35 @@ def merged_part(chk):
     empty trailing cell, so the span still covers exactly its area, nothing non-empty moves, the operation is idempotent,
     an overlapping set_span is still refused and del_span still restores plain cells"""
     rng = chk.rng
-    for _ in range(chk.n(300, 4000)):
+    for _ in range(chk.n(450, 6000)):
         t, info = T.gen_merged_table(rng)
         g0 = sgrid_of(t)
+        if info["areas"] and rng.random() < 0.4:
+            # del_span of ONE span of a sheet stored with runs (covered cells of neighbouring spans in one repeated run, stacked
+            # spans in one repeated row): the cells of its area become plain cells, nothing else changes
+            x, y, z, tt = rng.choice(info["areas"])
+            case = {"op": "merged del_span", **info, "area": (x, y, z, tt)}
+            chk.case(("merged-del", info["merged_xml"], (x, y)), nontrivial=True)
+            chk.count("merged", "del_span of one span")
+            try:
+                okd = t.del_span((x, y, x, y))
+            except Exception as e:  # noqa: BLE001
+                chk.fail({**case, "exception": repr(e)}, f"del_span raised {type(e).__name__} on a table with merged cells")
+                continue
+            g1 = sgrid_of(t)
+            bad = None
+            if not okd:
+                bad = "del_span does not find the span"
+            for j, row in enumerate(g0):
+                for i, c in enumerate(row):
+                    now = g1[j][i] if j < len(g1) and i < len(g1[j]) else None
+                    inside = x <= i <= z and y <= j <= tt
+                    want = (c[0], 0, 0, 0) if inside else c
+                    if now != want and bad is None:
+                        bad = f"cell ({i},{j}) {'inside' if inside else 'OUTSIDE'} the deleted span is {now}, expected {want}"
+            if bad:
+                chk.fail({**case, "problem": bad}, "del_span of one span changed something else than making the cells of its area plain cells")
+            continue
         ops = [rng.choice(["rstrip", "rstrip_aggr", "optimize_width"]) for _k in range(rng.randint(1, 2))]
         case = {"op": "merged", **info, "ops": ops}
         chk.case(("merged", info["merged_xml"], tuple(ops)), nontrivial=True, sample=case)
